@@ -200,6 +200,10 @@ Proof. intros. unfold gov_set, tally_core. dm; prj; auto 10. Qed.
 Lemma unbond_core : forall c s o, tally_core s (fst (unbond c s o))
   /\ pending (fst (unbond c s o)) = pending s /\ effects (fst (unbond c s o)) = effects s.
 Proof. intros. unfold unbond, tally_core. dm; prj; auto 10. Qed.
+Lemma mature_core : forall s, tally_core s (mature s) /\ last_by (mature s) = last_by s
+  /\ pending (mature s) = pending s /\ effects (mature s) = effects s /\ last_total (mature s) = last_total s
+  /\ by_bridger (mature s) = by_bridger s.
+Proof. intros. unfold mature, tally_core. prj. auto 10. Qed.
 Lemma edit_core : forall s o b, tally_core s (fst (edit_bridger s o b)) /\ last_by (fst (edit_bridger s o b)) = last_by s
   /\ pending (fst (edit_bridger s o b)) = pending s /\ effects (fst (edit_bridger s o b)) = effects s.
 Proof. intros. unfold edit_bridger, tally_core. dm; prj; auto 10. Qed.
@@ -209,11 +213,11 @@ Definition cast (s : st) (nonce cls o : Z) : att :=
   {| a_obs := match aget keq (nonce, cls) (atts s) with Some a => a_obs a | None => false end;
      a_votes := (match aget keq (nonce, cls) (atts s) with Some a => a_votes a | None => [] end) ++ [o] |}.
 
-Inductive vote_shape (s : st) (b n cl : Z) (park : bool) (s' : st) : res -> Prop :=
-| VRej : forall e, s' = s -> vote_shape s b n cl park s' (Err e)
+Inductive vote_shape (c : cfg) (s : st) (b n cl : Z) (park : bool) (s' : st) : res -> Prop :=
+| VRej : forall e, s' = s -> vote_shape c s b n cl park s' (Err e)
 | VKeep : forall o rec,
     aget Z.eqb b (by_bridger s) = Some o -> aget Z.eqb o (oracles s) = Some rec -> o_online rec = true ->
-    n = cursor s o + 1 ->
+    n = cursor c s o + 1 ->
     (a_obs (cast s n cl o) = true \/ n <> last_obs s + 1 \/
      tally (oracles s) (required s) 0 (a_votes (cast s n cl o)) = None) ->
     last_obs s' = last_obs s -> applied s' = applied s ->
@@ -222,10 +226,10 @@ Inductive vote_shape (s : st) (b n cl : Z) (park : bool) (s' : st) : res -> Prop
     vlog s' = vlog s ++ [(o, n)] ->
     oracles s' = oracles s -> last_total s' = last_total s -> by_bridger s' = by_bridger s ->
     by_ext s' = by_ext s -> proposal s' = proposal s ->
-    vote_shape s b n cl park s' Ok
+    vote_shape c s b n cl park s' Ok
 | VFlip : forall o rec p,
     aget Z.eqb b (by_bridger s) = Some o -> aget Z.eqb o (oracles s) = Some rec -> o_online rec = true ->
-    n = cursor s o + 1 ->
+    n = cursor c s o + 1 ->
     a_obs (cast s n cl o) = false -> n = last_obs s + 1 ->
     tally (oracles s) (required s) 0 (a_votes (cast s n cl o)) = Some p ->
     last_obs s' = n -> applied s' = applied s ++ [(n, cl)] ->
@@ -236,17 +240,17 @@ Inductive vote_shape (s : st) (b n cl : Z) (park : bool) (s' : st) : res -> Prop
     vlog s' = vlog s ++ [(o, n)] ->
     oracles s' = oracles s -> last_total s' = last_total s -> by_bridger s' = by_bridger s ->
     by_ext s' = by_ext s -> proposal s' = proposal s ->
-    vote_shape s b n cl park s' Ok.
+    vote_shape c s b n cl park s' Ok.
 
-Lemma vote_cases : forall s b n cl park ms,
-  vote_shape s b n cl park (fst (vote s b n cl park ms)) (snd (vote s b n cl park ms)).
+Lemma vote_cases : forall c s b n cl park ms,
+  vote_shape c s b n cl park (fst (vote c s b n cl park ms)) (snd (vote c s b n cl park ms)).
 Proof.
   intros. unfold vote.
   destruct (aget Z.eqb b (by_bridger s)) as [o|] eqn:Hb; [|constructor; reflexivity].
   destruct (aget Z.eqb o (oracles s)) as [rec|] eqn:Ho; [|constructor; reflexivity].
   destruct (o_online rec) eqn:Hon; cbn [negb]; [|constructor; reflexivity].
   destruct (forallb _ ms); cbn [negb]; [|constructor; reflexivity].
-  destruct (n =? cursor s o + 1) eqn:Hn; cbn [negb]; [|constructor; reflexivity].
+  destruct (n =? cursor c s o + 1) eqn:Hn; cbn [negb]; [|constructor; reflexivity].
   apply Z.eqb_eq in Hn.
   fold (cast s n cl o).
   assert (Hc : {| a_obs := a_obs match aget keq (n, cl) (atts s) with Some a => a | None => {| a_obs := false; a_votes := [] |} end;
@@ -281,6 +285,7 @@ Proof.
   - apply gov_core.
   - apply unbond_core.
   - apply edit_core.
+  - apply mature_core.
 Qed.
 
 (* in a goal about (step c s x) with x not a vote: bring the frame facts into the context *)
@@ -304,7 +309,7 @@ Theorem lastobs_step : forall c s x,
   last_obs (fst (step c s x)) = last_obs s \/ last_obs (fst (step c s x)) = last_obs s + 1.
 Proof.
   intros c s x. destruct x; try (left; nonvote_core c s; assumption).
-  cbn [step]. pose proof (vote_cases s bridger nonce cls park members) as V.
+  cbn [step]. pose proof (vote_cases c s bridger nonce cls park members) as V.
   vote_inv V.
   - left. congruence.
   - left. assumption.
@@ -319,7 +324,7 @@ Theorem advance_only_by_next_vote : forall c s x,
     applied (fst (step c s x)) = applied s ++ [(last_obs s + 1, cl)].
 Proof.
   intros c s x H. destruct x; try (exfalso; apply H; nonvote_core c s; assumption).
-  cbn [step] in *. pose proof (vote_cases s bridger nonce cls park members) as V.
+  cbn [step] in *. pose proof (vote_cases c s bridger nonce cls park members) as V.
   vote_inv V.
   - exfalso. apply H. congruence.
   - exfalso. apply H. assumption.
@@ -338,7 +343,7 @@ Lemma inv_log_step : forall c s x, inv_log s -> inv_log (fst (step c s x)).
 Proof.
   intros c s x [I1 I2].
   destruct x; try (nonvote_core c s; unfold inv_log; rewrite Flo, Fap; auto).
-  cbn [step]. pose proof (vote_cases s bridger nonce cls park members) as V.
+  cbn [step]. pose proof (vote_cases c s bridger nonce cls park members) as V.
   vote_inv V; unfold inv_log.
   - rewrite Hs. auto.
   - rewrite Hlo, Hap. auto.
@@ -405,7 +410,7 @@ Lemma inv_obs_step : forall c s x, inv_obs s -> inv_obs (fst (step c s x)).
 Proof.
   intros c s x IH.
   destruct x; try (nonvote_core c s; unfold inv_obs; rewrite Fat, Fap; exact IH).
-  cbn [step]. pose proof (vote_cases s bridger nonce cls park members) as V.
+  cbn [step]. pose proof (vote_cases c s bridger nonce cls park members) as V.
   vote_inv V; unfold inv_obs; intros n cl a Hg Hoa.
   - rewrite Hs in *. eauto.
   - rewrite Hap. rewrite Hat in Hg.
@@ -441,7 +446,7 @@ Theorem observed_only_next : forall c s x n cl a',
 Proof.
   intros c s x n cl a' Hg Hoa.
   destruct x; try (nonvote_core c s; rewrite Fat in Hg; left; eauto).
-  cbn [step] in *. pose proof (vote_cases s bridger nonce cls park members) as V.
+  cbn [step] in *. pose proof (vote_cases c s bridger nonce cls park members) as V.
   vote_inv V.
   - rewrite Hs in Hg. left; eauto.
   - rewrite Hat in Hg. destruct (keq (nonce, cls) (n, cl)) eqn:E.
@@ -571,11 +576,21 @@ Proof.
   - lia.
 Qed.
 
+Lemma mature_map_facts : forall l : list (Z * oracle),
+  let l' := map (fun p : Z * oracle => (fst p, matured (snd p))) l in
+  map fst l' = map fst l /\ (stakes_ok l -> stakes_ok l') /\ online_power l' = online_power l.
+Proof.
+  intro l. cbv zeta. repeat split.
+  - rewrite map_map. apply map_ext. intros [k o]. reflexivity.
+  - intros S k o H. apply in_map_iff in H. destruct H as [[k' o'] [E H]]. inversion E; subst. cbn. eapply S; eauto.
+  - induction l as [|[k o] r IH]; [reflexivity|]. cbn [map fst snd]. rewrite !online_power_cons, IH. reflexivity.
+Qed.
+
 Lemma inv_total_step : forall c s x, 0 <= c_threshold c -> inv_total s -> inv_total (fst (step c s x)).
 Proof.
   intros c s x Hc [N [S T]]. destruct x; cbn [step].
   - (* vote *)
-    pose proof (vote_cases s bridger nonce cls park members) as V. vote_inv V; unfold inv_total.
+    pose proof (vote_cases c s bridger nonce cls park members) as V. vote_inv V; unfold inv_total.
     + rewrite Hs. auto.
     + rewrite Hor, Hto. auto.
     + rewrite Hor, Hto. auto.
@@ -604,11 +619,11 @@ Proof.
     + apply gov_map_stakes. exact S.
     + pose proof (gov_map_power s os (oracles s) S). lia.
   - (* unbond *)
-    unfold unbond. dm; prj; try (unfold inv_total; auto; fail).
-    unfold inv_total; prj. repeat split.
-    + apply (NoDup_keys_adel Z.eqb). exact N.
-    + apply stakes_ok_adel. exact S.
-    + pose proof (online_power_adel_le o (oracles s) S). lia.
+    unfold unbond. dm; prj; try (unfold inv_total; auto; fail);
+    (unfold inv_total; prj; repeat split;
+     [ apply (NoDup_keys_adel Z.eqb); exact N
+     | apply stakes_ok_adel; exact S
+     | pose proof (online_power_adel_le o (oracles s) S); lia ]).
   - (* edit bridger *)
     unfold edit_bridger. dm; prj; try (unfold inv_total; auto; fail).
     unfold inv_total; prj. repeat split.
@@ -617,6 +632,9 @@ Proof.
     + rewrite online_power_aset.
       match goal with G : aget Z.eqb o (oracles s) = Some _ |- _ => rewrite (online_power_split o _ _ N G) in T end.
       unfold opow in *. cbn [o_online o_stake power] in *. unfold power in *. cbn [o_stake] in *. lia.
+  - (* time passes *)
+    unfold mature, inv_total; prj. destruct (mature_map_facts (oracles s)) as [A [B C]].
+    rewrite A, C. repeat split; auto.
 Qed.
 
 Lemma inv_total_reach : forall c h, 0 <= c_threshold c -> inv_total (run c init h).
@@ -633,13 +651,13 @@ Proof. intros c h Hc. apply (inv_total_reach c h Hc). Qed.
 (* ------------------------------------------------------------------ *)
 (* C02: a vote is accepted only from the registered bridger of an online oracle *)
 (* ------------------------------------------------------------------ *)
-Theorem vote_accept_online : forall s b n cl park ms,
-  snd (vote s b n cl park ms) = Ok ->
+Theorem vote_accept_online : forall c s b n cl park ms,
+  snd (vote c s b n cl park ms) = Ok ->
   exists o rec, aget Z.eqb b (by_bridger s) = Some o /\ aget Z.eqb o (oracles s) = Some rec /\
-                o_online rec = true /\ n = cursor s o + 1 /\
-                In (o, n) (vlog (fst (vote s b n cl park ms))).
+                o_online rec = true /\ n = cursor c s o + 1 /\
+                In (o, n) (vlog (fst (vote c s b n cl park ms))).
 Proof.
-  intros s b n cl park ms H. pose proof (vote_cases s b n cl park ms) as V. rewrite H in V.
+  intros c s b n cl park ms H. pose proof (vote_cases c s b n cl park ms) as V. rewrite H in V.
   vote_inv V; exists o, rec; repeat split; auto; rewrite Hvl; apply in_or_app; right; left; reflexivity.
 Qed.
 
@@ -684,7 +702,7 @@ Qed.
 Lemma inv_bridger_step : forall c s x, inv_bridger s -> inv_bridger (fst (step c s x)).
 Proof.
   intros c s x IH. destruct x; cbn [step].
-  - pose proof (vote_cases s bridger nonce cls park members) as V. vote_inv V; unfold inv_bridger.
+  - pose proof (vote_cases c s bridger nonce cls park members) as V. vote_inv V; unfold inv_bridger.
     + rewrite Hs. exact IH.
     + rewrite Hor, Hbb. exact IH.
     + rewrite Hor, Hbb. exact IH.
@@ -716,16 +734,16 @@ Proof.
     intros b' o' G. prj. destruct (IH _ _ G) as [r0 [Gr Br]].
     rewrite gov_map_aget, Gr. eexists; split; eauto. destruct (removed_by s os (o', r0)); auto.
   - (* unbond *)
-    unfold unbond. dm; prj; try exact IH.
-    intros b' o' G. prj.
-    match goal with Ho : aget Z.eqb o (oracles s) = Some ?rec |- _ =>
-      destruct (Z.eq_dec (o_bridger rec) b') as [E|E];
-      [ subst; rewrite (aget_adel_same Z.eqb) in G; discriminate
-      | rewrite (aget_adel_other Z.eqb zeqb_spec) in G by exact E;
-        destruct (IH _ _ G) as [r0 [Gr Br]];
-        assert (o <> o') by (intro; subst; congruence);
-        rewrite (aget_adel_other Z.eqb zeqb_spec) by assumption; eauto ]
-    end.
+    unfold unbond. dm; prj; try exact IH;
+    (intros b' o' G; prj;
+     match goal with Ho : aget Z.eqb o (oracles s) = Some ?rec |- _ =>
+       destruct (Z.eq_dec (o_bridger rec) b') as [E|E];
+       [ subst; rewrite (aget_adel_same Z.eqb) in G; discriminate
+       | rewrite (aget_adel_other Z.eqb zeqb_spec) in G by exact E;
+         destruct (IH _ _ G) as [r0 [Gr Br]];
+         assert (o <> o') by (intro; subst; congruence);
+         rewrite (aget_adel_other Z.eqb zeqb_spec) by assumption; eauto ]
+     end).
   - (* edit bridger *)
     unfold edit_bridger. dm; prj; try exact IH.
     intros b' o' G. prj.
@@ -741,16 +759,19 @@ Proof.
           assert (o <> o') by (intro; subst; congruence);
           rewrite (aget_aset_other Z.eqb zeqb_spec) by assumption; eauto ]
       end.
+  - (* time passes *)
+    intros b' o' G. unfold mature in *. prj. destruct (IH _ _ G) as [r0 [Gr Br]].
+    rewrite (aget_map_val Z.eqb zeqb_spec (fun p => matured (snd p))), Gr. eexists; split; eauto.
 Qed.
 
 Theorem vote_admission : forall c h b n cl park ms,
   let s := run c init h in
-  snd (vote s b n cl park ms) = Ok ->
+  snd (vote c s b n cl park ms) = Ok ->
   exists o rec, aget Z.eqb b (by_bridger s) = Some o /\ aget Z.eqb o (oracles s) = Some rec /\
                 o_online rec = true /\ o_bridger rec = b.
 Proof.
   intros c h b n cl park ms s H.
-  destruct (vote_accept_online _ _ _ _ _ _ H) as [o [rec [Hb [Ho [Hon _]]]]].
+  destruct (vote_accept_online _ _ _ _ _ _ _ H) as [o [rec [Hb [Ho [Hon _]]]]].
   assert (I : inv_bridger s).
   { apply run_inv; [intros ? ? G; discriminate G | intros; apply inv_bridger_step; assumption]. }
   destruct (I _ _ Hb) as [r [Gr Br]]. rewrite Ho in Gr. inversion Gr; subst. eauto 10.
@@ -778,7 +799,8 @@ Lemma step_other_frame : forall c s x,
   last_obs (fst (step c s x)) = last_obs s /\ pending (fst (step c s x)) = pending s /\
   effects (fst (step c s x)) = effects s.
 Proof.
-  intros c s x H. destruct x; cbn [step]; try contradiction.
+  intros c s x H. destruct x; cbn [step]; try contradiction;
+    try (pose proof (mature_core s) as [[A _] [_ [B [C _]]]]; auto; fail).
   - pose proof (bond_core c s o bridger ext stake) as [[A _] [_ [B C]]]. auto.
   - pose proof (add_core c s o amount) as [[A _] [_ [B C]]]. auto.
   - pose proof (slash_core s os) as [[A _] [_ [B C]]]. auto.
@@ -794,7 +816,7 @@ Proof.
   destruct x;
     try (match goal with |- context [step c s ?x] =>
            destruct (step_other_frame c s x I) as [A [B C]]; unfold inv_exec; rewrite A, B, C; auto end; fail).
-  - cbn [step]. pose proof (vote_cases s bridger nonce cls park members) as V. vote_inv V; unfold inv_exec.
+  - cbn [step]. pose proof (vote_cases c s bridger nonce cls park members) as V. vote_inv V; unfold inv_exec.
     + rewrite Hs. auto.
     + rewrite Hlo, Hpe, Hef. auto.
     + rewrite Hlo, Hpe, Hef. repeat split; auto.
@@ -935,7 +957,7 @@ Qed.
 Theorem quorum_at_flip : forall c h b n cl park ms,
   0 <= c_threshold c ->
   let s := run c init h in
-  let s' := fst (vote s b n cl park ms) in
+  let s' := fst (vote c s b n cl park ms) in
   last_obs s' <> last_obs s ->
   exists a, aget keq (n, cl) (atts s') = Some a /\ a_obs a = true /\
             66 * last_total s <= 100 * vote_power (oracles s) (a_votes a) + 99.
@@ -943,7 +965,7 @@ Proof.
   intros c h b n cl park ms Hc s s' H.
   destruct (inv_total_reach c h Hc) as [N [S T]]. fold s in N, S, T.
   pose proof (online_power_nonneg _ S) as NN.
-  pose proof (vote_cases s b n cl park ms) as V. fold s' in V. vote_inv V.
+  pose proof (vote_cases c s b n cl park ms) as V. fold s' in V. vote_inv V.
   - exfalso. apply H. congruence.
   - exfalso. apply H. assumption.
   - eexists. split; [|split].
@@ -1012,7 +1034,7 @@ Qed.
 Lemma inv_votes_step : forall c s x, inv_votes s -> safe_unbond s x -> inv_votes (fst (step c s x)).
 Proof.
   intros c s x IH SF. destruct x; cbn [step].
-  - pose proof (vote_cases s bridger nonce cls park members) as V. vote_inv V.
+  - pose proof (vote_cases c s bridger nonce cls park members) as V. vote_inv V.
     + rewrite Hs. exact IH.
     + unfold inv_votes. rewrite Hat, Hlb. split.
       * intros k a v G Hv. destruct (inv_votes_vote_atts s nonce cls o IH Hn k a G) as [A _]. auto.
@@ -1141,7 +1163,7 @@ Qed.
 Lemma inv_contig_step : forall w c s x, inv_contig w s -> no_unbond_of w s x -> inv_contig w (fst (step c s x)).
 Proof.
   intros w c s x IH SF. destruct x; cbn [step].
-  - pose proof (vote_cases s bridger nonce cls park members) as V. vote_inv V.
+  - pose proof (vote_cases c s bridger nonce cls park members) as V. vote_inv V.
     + rewrite Hs. exact IH.
     + eapply inv_contig_vote; eauto.
     + eapply inv_contig_vote; eauto.
